@@ -331,3 +331,35 @@ Theorem C03_default_arg_inside :
     (forall a, lo = Some a -> a < v) /\ (forall b, hi = Some b -> v < b).
 Proof. exact default_arg_inside. Qed.
 Print Assumptions C03_default_arg_inside.
+
+(* ------------------------------------------------------------------ no history dependence *)
+(* every number type: whatever sequence of assignments (var, len_scale, nugget, rescale, optional arguments, dim,
+   anis, integral_scale) produced the object, everything a caller can read (the three functions at any lag, sill,
+   len_rescaled, len_scale_vec, integral scale) is what a freshly constructed object with the current parameters gives *)
+Theorem C03_derived_from_current_state :
+  forall (T : Type) (O : NumOps T) cls ops st0 r,
+    let st := run_ops O cls ops st0 in
+    observe O cls st r
+    = observe O cls (construct (s_var st) (s_len st) (s_nugget st) (s_rescale st) (s_p1 st) (s_p2 st) (s_p3 st)
+                               (s_dim st) (s_anis st)) r.
+Proof. exact @observe_fresh. Qed.
+Print Assumptions C03_derived_from_current_state.
+
+Theorem C03_history_free :
+  forall (T : Type) (O : NumOps T) cls ops1 ops2 st1 st2 r,
+    run_ops O cls ops1 st1 = run_ops O cls ops2 st2 ->
+    observe O cls (run_ops O cls ops1 st1) r = observe O cls (run_ops O cls ops2 st2) r.
+Proof. exact @observe_history_free. Qed.
+Print Assumptions C03_history_free.
+
+(* an assignment rewrites its own parameter only *)
+Theorem C03_assignment_frame :
+  forall (T : Type) (O : NumOps T) cls st op,
+    let st' := set_step O cls st op in
+    ((forall v, op <> SetVar v) -> s_var st' = s_var st) /\
+    ((forall v, op <> SetNugget v) -> s_nugget st' = s_nugget st) /\
+    ((forall d, op <> SetDim d) -> s_dim st' = s_dim st) /\
+    ((forall k v, op <> SetOpt k v) -> s_p1 st' = s_p1 st /\ s_p2 st' = s_p2 st /\ s_p3 st' = s_p3 st) /\
+    ((forall v, op <> SetLen v) -> (forall t, op <> SetIntScale t) -> s_len st' = s_len st).
+Proof. exact @set_step_frame. Qed.
+Print Assumptions C03_assignment_frame.
